@@ -24,7 +24,10 @@ LEVEL_NOTE = ("Lean kernel + standard axioms; the model is a hand transcription 
               "random() a multiple of 1/1024 (float rounding argued harmless, boundary cases generated).")
 RULE = ("seeded histories of check_file / did_upload / did_check_healthy / check_directory / did_create / did_check_healthy "
         "(also on stale result objects), whole backup runs following tahoe_backup.py's protocol, file edits (size, mtime, ctime, "
-        "reverts, renames), clock jumps around the 1- and 2-month thresholds, table dumps and database reopen; a case is one API "
+        "reverts, renames), writes inside the upload window — between check_file(path) and result.did_upload(cap): same-size and "
+        "size-changing modification, append, touch, replace-by-rename, delete/recreate, delete — followed by runs with trusted "
+        "timestamps, six tool-level cases through the real BackerUpper.upload with the HTTP PUT faked (the file is written during "
+        "the PUT), clock jumps around the 1- and 2-month thresholds, table dumps and database reopen; a case is one API "
         "call; distinct = distinct (history prefix, call); non-trivial = a check_file on a path that has an upload record or a "
         "check_directory after at least one did_create")
 TRUSTED = ["lean/Tahoe/BackupDb.lean is a hand transcription of BackupDB_v2; SQLite tables are modelled as finite maps",
@@ -35,7 +38,7 @@ ASSUMPTIONS = [
     "paths are absolute and normalised (abspath_expanduser_unicode is the identity on them); str.encode('utf-8') is injective",
     "time.time() returns integer seconds and random.random() a multiple of 1/1024; the float comparison then equals the exact rational one (|p - r| >= 1/(1024*2592000) unless equal)",
     "os.stat succeeds (the tool only checks files it has just listed); did_check_healthy is called on results that carry a cap (API contract)",
-    "the record of an upload is (size, mtime, ctime) as captured by the check_file call whose FileResult receives did_upload — the statement's 'record of its most recent upload'",
+    "the record of an upload is the (size, mtime, ctime) sampled by the check_file call whose FileResult receives did_upload, i.e. sampled before the bytes were read (FileResult.didUpload in the model; the harness keeps its own copy of that stat and of the content identity) — the statement's 'record of its most recent upload'; reuse with other bytes but an identical stat triple is permitted ('timestamps are trusted') and only counted",
 ]
 
 BASE_T = 1_700_000_000
@@ -53,6 +56,8 @@ class FakeOS:
         self.files = {}
 
     def stat(self, p):
+        if p not in self.files:
+            raise FileNotFoundError(2, "No such file or directory", p)
         size, mtime, ctime = self.files[p]
         t = [0] * 10
         t[statmod.ST_SIZE] = size
@@ -185,9 +190,47 @@ def gen_history(rng, n):
                 s[0] += 1; s[1] += 1; s[2] += 1
         steps.append(["set", p, list(files[p])])
 
+    def window_write(p):
+        """something happens to `p` while its upload is in flight (between check_file and did_upload)"""
+        s = files[p]
+        kind = rng.choice(["modify-same-size", "modify-size", "append", "touch", "replace-by-rename", "delete-recreate",
+                           "delete", "modify-same-stat"])
+        if kind == "modify-same-size":
+            s[1] += rng.choice([1, 7]); s[2] = max(s[2], s[1])
+        elif kind in ("modify-size", "append"):
+            s[0] += rng.choice([1, 9]) if kind == "append" or s[0] == 0 else rng.choice([1, -1])
+            s[1] += rng.choice([0, 1, 7]); s[2] += 1
+        elif kind == "touch":
+            s[1] += rng.choice([1, 100, -50]); s[2] += 1
+        elif kind == "replace-by-rename":
+            s[0] = rng.choice([s[0], s[0] + 3]); s[1] -= rng.choice([0, 5, 1000]); s[2] += 2
+        elif kind == "delete-recreate":
+            steps.append(["rm", p])
+            s[0] = rng.choice([0, s[0], s[0] + 1]); s[1] += 3; s[2] += 3
+        elif kind == "delete":
+            steps.append(["rm", p])
+            del files[p]
+            return
+        steps.append(["write", p, list(s), kind])
+
     while len(steps) < n:
         r = rng.random()
-        if r < 0.12 or not files:
+        if files and r < 0.10:
+            # a backup of one file with a writer racing the upload, then (later) an ordinary run with trusted timestamps
+            p = rng.choice(sorted(files))
+            steps.append(["cf", p, rng.random() < 0.9, rng.randrange(1024)])
+            nres += 1
+            for _ in range(rng.choice([1, 1, 2])):
+                if p in files:
+                    window_write(p)
+            steps.append(["up", nres - 1, newcap().hex()])
+            if rng.random() < 0.5:
+                steps.append(["tick", rng.choice([1, 60, 86400])])
+            if files and rng.random() < 0.8:
+                steps.append(["run", True, [rng.randrange(1024) for _ in files], [rng.random() < 0.7 for _ in files],
+                              [newcap().hex() for _ in files]])
+                nres += len(files)
+        elif r < 0.12 or not files:
             edit(rng.choice(PATHS))
         elif r < 0.15 and len(files) >= 1:
             a = rng.choice(sorted(files)); b = rng.choice(PATHS)
@@ -270,12 +313,21 @@ def execute(ctx, steps, dbfile, case):
         prefix.update(tok.encode())
         ctx.case(prefix.hexdigest()[:16] if nontrivial else None)
 
+    content = {}                  # path -> id of the bytes on disk now      [harness bookkeeping]
+    next_content = [0]
+    checked = []                  # per FileResult: (path, stat sampled by the harness at check time, content id then)
+
+    def new_content(p):
+        next_content[0] += 1
+        content[p] = next_content[0]
+
     def do_cf(p, ts, k):
         w.random.k = k
         size, mtime, ctime = w.os.files[p]
         had = p in ref_upload
         r = w.bdb.check_file(p, use_timestamps=ts)
         fres.append(r)
+        checked.append((p, (size, mtime, ctime), content.get(p), sum(1 for c in checked if c is not None)))
         got = r.was_uploaded()
         tok = "cf:%s:%d:%d:%d:%d:%d:%d" % (hx(p.encode("utf-8")), size, mtime, ctime, 1 if ts else 0, w.time.now, k)
         toks.append(tok)
@@ -290,20 +342,36 @@ def execute(ctx, steps, dbfile, case):
                 ctx.violation("check_file reused a cap for a path with no upload record", case, "file-reuse:no-upload-record")
             elif rec[:3] != (size, mtime, ctime):
                 which = [n for n, a, b in zip(("size", "mtime", "ctime"), rec[:3], (size, mtime, ctime)) if a != b]
-                ctx.violation("check_file reused a cap although %s differ from the most recent upload's record" % "+".join(which),
-                              case, "file-reuse:stat-differs:" + "+".join(which))
+                if rec[5] and rec[6] == (size, mtime, ctime):     # written in the window and untouched since did_upload
+                    ctx.violation("check_file reused the cap of an upload during which the file was written: %s now differ from "
+                                  "what was sampled when that upload's bytes were checked (content on disk %s the uploaded content)"
+                                  % ("+".join(which), "differs from" if content.get(p) != rec[4] else "equals"),
+                                  case, "stale-cap-reused:written-during-upload")
+                else:
+                    ctx.violation("check_file reused a cap although %s differ from the most recent upload's record" % "+".join(which),
+                                  case, "file-reuse:stat-differs:" + "+".join(which))
             elif rec[3] != got:
                 ctx.violation("check_file returned a cap that is not the most recent upload's", case, "file-reuse:wrong-cap")
+            elif content.get(p) != rec[4]:
+                # same size/mtime/ctime as sampled, other bytes: permitted — "timestamps are trusted"
+                ctx.count("file:reused-other-content-with-identical-stat")
             ctx.count("file:reused" + (":should-check" if r.should_check() else ""))
         else:
             ctx.count("file:must-upload")
         note(tok, had)
         return r
 
-    def do_up(r, cap):
+    def do_up(idx, cap):
+        r = fres[idx]
+        path, st, cid, drv_idx = checked[idx]      # drv_idx: position among the cf tokens of the driver line
+        in_window = (w.os.files.get(path), content.get(path)) != (st, cid)
+        if in_window:
+            ctx.count("upload-window:written" + ("" if path in w.os.files else "+deleted"))
         r.did_upload(cap)
-        ref_upload[r.path] = (r.size, r.mtime, r.ctime, cap)
-        tok = "up:%s:%s:%d:%d:%d:%d" % (hx(cap), hx(r.path.encode("utf-8")), r.mtime, r.ctime, r.size, w.time.now)
+        # the record of this upload = what was sampled when its bytes were checked (known to the harness, not read
+        # back from the result object); the cap stands for the content the file had then
+        ref_upload[path] = (st[0], st[1], st[2], cap, cid, in_window, w.os.files.get(path))
+        tok = "upr:%d:%s:%d" % (drv_idx, hx(cap), w.time.now)
         toks.append(tok); outs.append("ok"); note(tok, False)
 
     def do_hl(r):
@@ -320,29 +388,43 @@ def execute(ctx, steps, dbfile, case):
             ctx.count("op:" + op)
             if op == "set":
                 w.os.files[st[1]] = tuple(st[2])
+                new_content(st[1])
+            elif op == "write":
+                w.os.files[st[1]] = tuple(st[2])
+                if st[3] != "touch":
+                    new_content(st[1])
+                ctx.count("write:" + st[3])
+            elif op == "rm":
+                w.os.files.pop(st[1], None)
+                content.pop(st[1], None)
             elif op == "mv":
                 w.os.files[st[2]] = w.os.files.pop(st[1])
+                content[st[2]] = content.pop(st[1], None)
             elif op == "tick":
                 w.time.now += st[1]
             elif op == "cf":
-                do_cf(st[1], st[2], st[3])
+                if st[1] in w.os.files:
+                    do_cf(st[1], st[2], st[3])
+                else:
+                    fres.append(None); checked.append(None)      # keeps result indices aligned (never generated)
             elif op == "up":
-                do_up(fres[st[1]], bytes.fromhex(st[2]))
+                if fres[st[1]] is not None:
+                    do_up(st[1], bytes.fromhex(st[2]))
             elif op == "hl":
                 r = fres[st[1]]
-                if r.filecap is not None:
+                if r is not None and r.filecap is not None:
                     do_hl(r)
             elif op == "run":
                 _, ts, ks, healthy, caps = st
                 for i, p in enumerate(sorted(w.os.files)):
                     r = do_cf(p, ts, ks[i % len(ks)])
                     if not r.was_uploaded():
-                        do_up(r, bytes.fromhex(caps[i % len(caps)]))
+                        do_up(len(fres) - 1, bytes.fromhex(caps[i % len(caps)]))
                     elif r.should_check():
                         if healthy[i % len(healthy)]:
                             do_hl(r)
                         else:
-                            do_up(r, bytes.fromhex(caps[i % len(caps)]))
+                            do_up(len(fres) - 1, bytes.fromhex(caps[i % len(caps)]))
             elif op == "cd":
                 c = st[1]
                 contents = {k: bytes.fromhex(v) for k, v in c}
@@ -388,7 +470,8 @@ def execute(ctx, steps, dbfile, case):
                     w.reopen()
                     # result objects keep the old connection's BackupDB; give them the new one, as a new tool run would
                     for r in fres:
-                        r.bdb = w.bdb
+                        if r is not None:
+                            r.bdb = w.bdb
                     for (r, _, _) in dres:
                         r.bdb = w.bdb
             else:
@@ -398,32 +481,146 @@ def execute(ctx, steps, dbfile, case):
     return ";".join(outs), "hist " + " ".join(toks)
 
 
+# ------------------------------------------------------------------------------------------------ tool level
+
+TOOL_VARIANTS = ["none", "append", "rewrite-same-size", "touch", "replace-by-rename", "delete-recreate"]
+
+
+def tool_level(ctx, tmp, variant):
+    """One file backed up twice through the real tahoe_backup.BackerUpper.upload (real os.stat, real files, in-memory
+    database); the HTTP PUT is a local fake during which `variant` happens to the file.  Monitor = the statement: the
+    second run may reuse the cap only if size/mtime/ctime now equal what the file had when run 1 checked it."""
+    from allmydata.scripts import backupdb, tahoe_backup
+    d = os.path.join(tmp, "tool-" + variant)
+    os.makedirs(d, exist_ok=True)
+    p = os.path.join(d, "app.log")
+    with open(p, "wb") as f:
+        f.write(b"line 1\n" * 10)
+    os.utime(p, (1400000000, 1400000000))
+
+    def statkey():
+        s = os.stat(p)
+        return (s[statmod.ST_SIZE], s[statmod.ST_MTIME], s[statmod.ST_CTIME])
+
+    def cap_for(data):
+        return b"URI:CHK:" + hashlib.sha256(data).hexdigest().encode("ascii")
+
+    state = {"race": True}
+
+    class Resp:
+        status = 200
+
+        def __init__(self, body):
+            self._body = body
+
+        def read(self):
+            return self._body
+
+    def fake_do_http(method, url, body=b""):
+        assert method == "PUT", (method, url)
+        data = body.read()
+        body.close()
+        if state["race"]:
+            if variant == "append":
+                with open(p, "ab") as f:
+                    f.write(b"line written while the upload was running\n")
+                os.utime(p, (1400000100, 1400000100))
+            elif variant == "rewrite-same-size":
+                with open(p, "r+b") as f:
+                    f.write(b"LINE")
+                os.utime(p, (1400000100, 1400000100))
+            elif variant == "touch":
+                os.utime(p, (1400000100, 1400000100))
+            elif variant == "replace-by-rename":
+                q = p + ".new"
+                with open(q, "wb") as f:
+                    f.write(b"replacement\n")
+                os.utime(q, (1399999000, 1399999000))
+                os.rename(q, p)
+            elif variant == "delete-recreate":
+                os.unlink(p)
+                with open(p, "wb") as f:
+                    f.write(b"line 1\n" * 10)
+                os.utime(p, (1400000200, 1400000200))
+        return Resp(cap_for(data) + b"\n")
+
+    class Options(dict):
+        stdout = io.StringIO()
+        stderr = io.StringIO()
+
+    case = {"phase": "tool", "variant": variant}
+    orig = tahoe_backup.do_http
+    tahoe_backup.do_http = fake_do_http
+    try:
+        bu = tahoe_backup.BackerUpper(Options({"node-url": "http://127.0.0.1:1/", "ignore-timestamps": False}))
+        bu.verbosity = 0
+        bu.backupdb = backupdb.get_backupdb(":memory:", stderr=io.StringIO())
+        sampled = statkey()
+        created1, cap1, _ = bu.upload(p)
+        state["race"] = False
+        now = statkey()
+        created2, cap2, _ = bu.upload(p)
+        bu.backupdb.connection.close()
+    finally:
+        tahoe_backup.do_http = orig
+    ctx.count("tool-level:" + variant + (":reused" if not created2 else ":uploaded-again"))
+    ctx.case(("tool", variant))
+    if not created1:
+        ctx.violation("BackerUpper.upload reused a cap for a file that was never uploaded", case, "file-reuse:no-upload-record")
+    if not created2 and now != sampled:
+        with open(p, "rb") as f:
+            want = cap_for(f.read())
+        ctx.violation("BackerUpper.upload (second run) reused %r although size/mtime/ctime %r differ from %r sampled when the "
+                      "uploaded bytes were checked; the bytes on disk would give %r" % (cap2, now, sampled, want), case,
+                      "stale-cap-reused:written-during-upload")
+
+
 def run(ctx):
+    import traceback
     from common import WORK
     tmp = os.path.join(WORK, "c42-%d" % os.getpid())
     os.makedirs(tmp, exist_ok=True)
     hists = []
-    if ctx.replay:
+    tools = []
+    if ctx.replay and ctx.replay["case"].get("phase") == "tool":
+        tools = [ctx.replay["case"]["variant"]]
+    elif ctx.replay:
         hists = [ctx.replay["case"]["steps"]]
     else:
+        tools = list(TOOL_VARIANTS)
         hists += CORPUS
         for _ in range(ctx.budget(250, 6000)):
             hists.append(gen_history(ctx.rng, ctx.rng.choice([8, 20, 40, 90])))
     cases, impl, lines = [], [], []
     try:
+        for v in tools:
+            try:
+                tool_level(ctx, tmp, v)
+            except Exception:
+                ctx.disagree("harness exception in the tool-level case (BackerUpper.upload no longer drivable as modelled)",
+                             {"phase": "tool", "variant": v}, traceback.format_exc()[-1200:], None)
         for i, h in enumerate(hists):
             on_disk = any(s[0] == "reopen" for s in h)
             dbfile = os.path.join(tmp, "h%d.sqlite" % i) if on_disk else ":memory:"
             case = {"steps": h}
-            out, line = execute(ctx, h, dbfile, case)
+            try:
+                out, line = execute(ctx, h, dbfile, case)
+            except Exception:
+                # one history the implementation cannot run any more must not hide the others
+                ctx.disagree("harness exception while running a history on the implementation", case,
+                             traceback.format_exc()[-1200:], None)
+                continue
+            finally:
+                if on_disk and os.path.exists(dbfile):
+                    os.unlink(dbfile)
             if on_disk:
                 ctx.count("history:on-disk-with-reopen")
-                os.unlink(dbfile)
             cases.append(case); impl.append(out); lines.append(line)
     finally:
         shutil.rmtree(tmp, ignore_errors=True)
     model = ctx.model(lines)
     ctx.compare("BackupDB_v2 history: every call's result, hashed directory string, table dumps", cases, impl, model)
-    ctx.sample({"steps": hists[0][:6], "impl": impl[0][:300]})
-    if len(hists) > 3:
-        ctx.sample({"steps": hists[3][:8], "impl": impl[3][:300]})
+    if hists and impl:
+        ctx.sample({"steps": hists[0][:6], "impl": impl[0][:300]})
+        if len(impl) > 3:
+            ctx.sample({"steps": hists[3][:8], "impl": impl[3][:300]})
